@@ -6,7 +6,7 @@
 set -u
 NAME=$1; WT=$2
 OUT=/verif/refactorings/$NAME; mkdir -p $OUT
-(cd $WT && git diff -- kingdon > $OUT/patch.diff); [ -s $OUT/patch.diff ] || cp $WT/patch.diff $OUT/patch.diff
+(cd $WT && git add -N kingdon && git diff -- kingdon > $OUT/patch.diff); [ -s $OUT/patch.diff ] || cp $WT/patch.diff $OUT/patch.diff
 cp $WT/notes.md $OUT/notes.md 2>/dev/null
 echo "== suite with the refactoring"; (cd $WT && PYTHONPATH=$WT timeout 1800 /venv/bin/python -m pytest -q -p no:cacheprovider -n 6 --timeout=900 2>&1 | tail -1 | tee $OUT/suite.log)
 SCR=/var/tmp/kvcscratch/ref_$NAME; rm -rf $SCR; mkdir -p $SCR/repo $SCR/out; cp -r /repo/kingdon $SCR/repo/kingdon
